@@ -94,7 +94,11 @@ impl<'a> Gen<'a> {
         _ => "count(xs)".into(),
       };
     }
-    match self.rng.index(16) {
+    match self.rng.index(20) {
+      16 => format!("(function() {})()", self.num(d - 1)),
+      17 => format!("{{pi: function() {}, r: pi() + {}}}.r", self.num(d - 1), self.num(d - 1)),
+      18 => format!("sum(for i in {} return (function() i + a)())", self.list(d - 1)),
+      19 => format!("(function(f) f() + 1)(function() {})", self.num(d - 1)),
       0 => format!("({} + {})", self.num(d - 1), self.num(d - 1)),
       1 => format!("({} * {})", self.num(d - 1), self.num(d - 1)),
       2 => format!("(if {} then {} else {})", self.boolean(d - 1), self.num(d - 1), self.num(d - 1)),
@@ -213,13 +217,15 @@ impl<'a> Gen<'a> {
     }
   }
   fn any(&mut self, d: u32) -> String {
-    match self.rng.index(8) {
+    match self.rng.index(10) {
       0 | 1 => self.num(d),
       2 | 3 => self.list(d),
       4 => self.boolean(d),
       5 => self.string(d),
       6 => format!("{{r: {}, t: {}, u: [r, t]}}", self.num(d.saturating_sub(1)), self.list(d.saturating_sub(1))),
-      _ => format!("function(k) k + {}", self.num(d.saturating_sub(1))),
+      7 => format!("function(k) k + {}", self.num(d.saturating_sub(1))),
+      8 => format!("function() {}", self.num(d.saturating_sub(1))),
+      _ => format!("{{f: function() {}, g: function(u, v) u + v, h: [f, g]}}", self.list(d.saturating_sub(1))),
     }
   }
 }
